@@ -154,6 +154,11 @@ func c09Build(d c09Msg) *dns.Msg {
 			o.Option = []dns.EDNS0{&dns.EDNS0_NSID{Code: dns.EDNS0NSID, Nsid: "6e73312e6578616d706c65"}, &dns.EDNS0_COOKIE{Code: dns.EDNS0COOKIE, Cookie: "0102030405060708"}}
 		case 2:
 			o.Hdr.Rdlength = 27
+		case 3:
+			// an OPT that alone (with header and question) reaches the 512-octet floor
+			o.Option = []dns.EDNS0{&dns.EDNS0_PADDING{Padding: make([]byte, 410)}}
+		case 4:
+			o.Option = []dns.EDNS0{&dns.EDNS0_PADDING{Padding: make([]byte, 600)}}
 		}
 		return o
 	}
@@ -592,7 +597,7 @@ func c09Spaces(c *fw.Ctx) {
 			}
 		})
 
-	c.Space("replies-opt-options", tsigRule+"; × OPT {last, first} carrying NSID+COOKIE options built in memory (Hdr.Rdlength 0), or no options but a stale Hdr.Rdlength (as after unpacking and stripping options) × Compress × Truncated; every size as in 'replies'; non-trivial: some size drops a record", true,
+	c.Space("replies-opt-options", tsigRule+"; × OPT {last, first} carrying NSID+COOKIE options built in memory (Hdr.Rdlength 0), or no options but a stale Hdr.Rdlength (as after unpacking and stripping options), or 410 / 600 octets of padding (header + question + OPT then reach / pass the 512-octet floor: the OPT must be retained all the same) × Compress × Truncated; every size as in 'replies'; non-trivial: some size drops a record", true,
 		func(emit func(func(*fw.R))) {
 			for na := 0; na <= maxSec; na++ {
 				for nn := 0; nn <= maxSec; nn++ {
@@ -602,7 +607,10 @@ func c09Spaces(c *fw.Ctx) {
 								if opt == 2 && nx == 0 {
 									continue
 								}
-								for kind := 1; kind <= 2; kind++ {
+								for kind := 1; kind <= 4; kind++ {
+									if kind >= 3 && !c.Thorough && (na > 1 || nn > 1 || nx > 1) {
+										continue // quick: the oversized OPTs with at most one record per section
+									}
 									for f := 0; f < 4; f++ {
 										d := c09Msg{na: na, nn: nn, nx: nx, shapes: v, opt: opt, optKind: kind, compress: f&1 != 0, tc: f&2 != 0}
 										emit(func(r *fw.R) { c09Reply(r, d) })
